@@ -136,6 +136,28 @@ class RepResult:
         return res
 
 
+MODEL_ERR_CAP = 301       # the OCaml driver replays at most 300 errors per input and flags the rest as truncated
+
+
+def shrink_for_model(line):
+    """drop the ER/RS sections of errors beyond the model's cap (an input can carry hundreds of thousands of
+    errors when a repair does not move the parser on); the Python checks still see all of them"""
+    if line.count(" # ER ") <= MODEL_ERR_CAP:
+        return line
+    out, n, skipping = [], 0, False
+    for sec in line.split(" # "):
+        k = sec.split(" ", 1)[0]
+        if k == "I":
+            n, skipping = 0, False
+        elif k == "ER":
+            n += 1
+            skipping = n > MODEL_ERR_CAP
+        if skipping and k in ("ER", "RS"):
+            continue
+        out.append(sec)
+    return " # ".join(out)
+
+
 def _stitch(dump_line, per_input):
     """dump (no inputs) + per-input tails"""
     out = dump_line
@@ -172,7 +194,7 @@ def run_cases(cases, budget_ms=BUDGET_MS):
                 elif all(x in names for x in inp):
                     tails.append(" # I %s # VL %s # TM %d" % (" ".join(names[x] for x in inp), o.split()[0].lower(), ONE_TIMEOUT_MS))
             impl[i] = _stitch(outs[0], tails)
-    model = core.run_lines([mexe], impl)
+    model = core.run_lines([mexe], [shrink_for_model(l) for l in impl])
     return [RepResult(c[0], c[1], c[1].render() if not isinstance(c[1], str) else c[1], c[2], c[3], c[4], a, b)
             for c, a, b in zip(cases, impl, model)]
 
